@@ -281,6 +281,9 @@ def finish(ctx, props_file, aud, cov, violations, broken_ties, assumptions, extr
         "axioms_reported": {k: v for k, v in aud["axioms"].items() if v},
     }
     coverage.update(cov)
+    if level == "translation_validation":
+        coverage["programs"] = max(1, int(cov.get("evaluations", 0)))
+        coverage["disagreements_checked"] = len(broken_ties)
     coverage["tie_breaks"] = len(broken_ties)
     if broken_ties:
         coverage["tie_break_examples"] = broken_ties[:8]
